@@ -603,6 +603,21 @@ def _gen_det_singular(rng, D, P, tier):
     return [U(x)]
 
 
+def _gen_det_mixed_cond(rng, D, P, tier):
+    """a badly scaled but regular direction (diag(2^27, 2^-27, ...) up to a rotation-free perturbation) next to a direction with a
+    singular zeroth coefficient: how the regular direction is computed must not depend on its neighbour"""
+    n = rng.choice([2, 3])
+    x = rand_coeffs(rng, (D, P, n, n), -1, 1)
+    for p in range(P):
+        if p == P - 1 and P >= 2:
+            x[0, p] = 0.0                                       # singular (zero) base point
+        else:
+            d = [2.0 ** 27, 2.0 ** -27] + ([1.5] if n == 3 else [])
+            x[0, p] = np.diag(d)
+    return [U(x)]
+
+
+op('det:mixed-cond', _gen_det_mixed_cond, lambda a: algopy.det(a[0]), lambda z: np.linalg.det(z[0]), tags=('linalg',))
 op('det:singular', _gen_det_singular, lambda a: algopy.det(a[0]), lambda z: np.linalg.det(z[0]), tags=('linalg',))
 op('logdet', _gen_logdet, lambda a: algopy.logdet(a[0]), lambda z: np.linalg.slogdet(z[0])[1], tags=('linalg',))
 op('qr', lambda rng, D, P, t: [U(gen_tall(rng, D, P, *rng.choice([(2, 2), (3, 3), (3, 2), (4, 2)])))],
